@@ -59,6 +59,11 @@ func liesCatalogue() []liesItem {
 	for rep := 0; rep < 3; rep++ {
 		out = append(out, liesItem{"blocks", "too-few-not-last", "long", "", 10 + rep}, liesItem{"blocks", "empty-not-last", "long", "", 10 + rep})
 	}
+	// instant sync of several requests: the liar answers from a valid sibling
+	// branch that leaves the honest chain right at the victim's checkpoint
+	for rep := 0; rep < 5; rep++ {
+		out = append(out, liesItem{"blocks", "other-branch", "long-instant", "", 20 + rep})
+	}
 	for _, regime := range []string{"plain", "instant"} {
 		batch := liesChainLen
 		if regime == "instant" {
@@ -110,6 +115,10 @@ func liesCase(it liesItem) C11Case {
 		tc.Net = kit.NetSpec{Maturity: 1, Allow: 1, ReqOff: 1, CutOff: 2}
 	}
 	chainLen := liesChainLen
+	if it.Regime == "long-instant" {
+		tc.Net = kit.NetSpec{Maturity: 1, Allow: 1, ReqOff: 1, CutOff: 2}
+		chainLen = 250
+	}
 	if it.Regime == "long" {
 		// v2 allowed from height 2, required only at 302: every block is a v2
 		// block on the AddBlocks path
@@ -117,7 +126,7 @@ func liesCase(it liesItem) C11Case {
 		chainLen = 250
 	}
 	for i := 0; i < chainLen; i++ {
-		if it.Regime == "long" && i%25 != 0 {
+		if (it.Regime == "long" || it.Regime == "long-instant") && i%25 != 0 {
 			tc.Blocks = append(tc.Blocks, kit.BlockSpec{Dt: 1, Miner: i % 4, OnBad: true})
 			continue
 		}
@@ -129,12 +138,21 @@ func liesCase(it liesItem) C11Case {
 	}
 	h := chainLen - 1
 	c := C11Case{Honest: h, Victim: -1, NHonest: 1, HonestDelayMS: 1500, Outline: false}
-	if it.Regime == "long" {
+	if it.Regime == "long" || it.Regime == "long-instant" {
 		c.HonestDelayMS = 0 // liar and honest peer serve the same download
 	}
 	c.BadChild = appendRun(&tc, h, []kit.BlockSpec{{Dt: 1, Txs: []kit.Intent{{Kind: "pay", Who: 1, To: 2, Pick: 2, Amt: 4, V2: true}}, Corrupt: &kit.Corruption{Kind: "overspend", Arg: 0}}})
 	c.GoodChild = appendRun(&tc, h, []kit.BlockSpec{{Dt: 2, Miner: 1, Txs: []kit.Intent{{Kind: "pay", Who: 0, To: 1, Pick: 3, Amt: 3, V2: true}, {Kind: "pay", Who: 3, To: 2, Pick: 1, Amt: 5, Fee: true, V2: true}}}})
-	if it.RPC == "blocks" && it.Kind == "other-branch" {
+	if it.Regime == "long-instant" {
+		// 120 blocks off the checkpoint block (height 3): the first request of the
+		// download attaches there on both branches
+		var run []kit.BlockSpec
+		for i := 0; i < 120; i++ {
+			run = append(run, kit.BlockSpec{Dt: 2, Miner: 3})
+		}
+		c.AltTip = appendRun(&tc, 2, run)
+		c.Bootstrap = liesBootstrap
+	} else if it.RPC == "blocks" && it.Kind == "other-branch" {
 		// a sibling branch of the same length that leaves the honest chain at
 		// height 6: same count, other blocks
 		var run []kit.BlockSpec
